@@ -992,24 +992,48 @@ HandleTimeoutOrder(cfg, w, id) ==
                rr == FoldLeft(reassign, [w |-> r.w, o |-> o], [k \in 1..Len(r.sps) |-> k])
            IN TimeoutAdd(SetOrder(rr.w, rr.o), w.h + o.timeout, o.id)
 
+\* sao/keeper dropOpenHandOver: the hand-over of a shard that has reached the end of its last paid period has nothing left to
+\* take over. The shards still migrating in from its provider sp under an order that lists the expired shard are deleted and
+\* taken off the list of every order of the model. The list of order o itself is only shortened (its caller stores or removes
+\* it); another order that lists nothing any more is removed.
+ModelOrderIds(w, o) == <<o.id>> \o (IF HasMeta(w, o.data) THEN SelectSeq(MetaOf(w, o.data).orders, LAMBDA x : x # o.id) ELSE <<>>)
+OpenHandOvers(w, o, sid, sp) ==
+    LET ids == ModelOrderIds(w, o)
+        listing == {ids[i] : i \in {k \in 1..Len(ids) : HasOrder(w, ids[k]) /\ InSeq(sid, OrderOf(w, ids[k]).shards)}}
+        listed == UNION {Rng(OrderOf(w, id).shards) : id \in listing}
+    IN {x \in listed : HasShard(w, x) /\ ShardOf(w, x).status = SMigrating /\ ShardOf(w, x).from = sp}
+DropOpenHandOver(w, o, sid, sp) ==
+    LET gone == OpenHandOvers(w, o, sid, sp)
+        w1 == FoldLeft(LAMBDA acc, x : DelShard(acc, x), w, SetToSortSeq(gone, <))
+        one(acc, id) ==
+            IF ~HasOrder(acc, id) THEN acc
+            ELSE LET oo == OrderOf(acc, id)
+                     kept == SelectSeq(oo.shards, LAMBDA x : x \notin gone)
+                 IN IF Len(kept) = Len(oo.shards) THEN acc
+                    ELSE IF id = o.id \/ kept # <<>> THEN SetOrder(acc, [oo EXCEPT !.shards = kept])
+                    ELSE DelOrder(acc, id)
+    IN IF gone = {} THEN w ELSE FoldLeft(one, w1, ModelOrderIds(w, o))
+
 \* sao/keeper HandleExpiredShard
 HandleExpiredShard(cfg, w, sid) ==
     IF ~Good(w) \/ ~HasShard(w, sid) THEN w
     ELSE LET sh == ShardOf(w, sid) IN
     IF ~HasOrder(w, sh.order) THEN w
     ELSE
-    LET o == OrderOf(w, sh.order)
+    LET o0 == OrderOf(w, sh.order)
         w1 == LET r == WorkerRelease(cfg, w, sh) IN IF Good(r) THEN r ELSE w   \* error ignored by the caller
         w2 == IF sh.renew = <<>> THEN
-                  LET r == ShardRelease(cfg, w1, sh.sp, sh, TRUE) IN
-                  IF Good(r) THEN DelShard(r, sid)
-                  ELSE IF r.fail = "negative coin amount" THEN Fail(w1, "PANIC negative coin amount")
-                  ELSE DelShard(w1, sid)
+                  LET r == ShardRelease(cfg, w1, sh.sp, sh, TRUE)
+                      d == IF Good(r) THEN DelShard(r, sid)
+                           ELSE IF r.fail = "negative coin amount" THEN Fail(w1, "PANIC negative coin amount")
+                           ELSE DelShard(w1, sid)
+                  IN IF Good(d) THEN DropOpenHandOver(d, o0, sid, sh.sp) ELSE d
               ELSE
                   LET nx == sh.renew[1]
                       sh1 == [sh EXCEPT !.renew = Tail(@), !.order = nx.order, !.created = w.h, !.dur = nx.dur]
                       w3 == SetShard(ExpShardAdd(w1, ShardEnd(sh1), sid), sh1)
                   IN IF HasOrder(w3, nx.order) THEN WorkerAppend(cfg, w3, sh1) ELSE WorkerAppend(cfg, w3, sh1)
+        o == IF Good(w2) /\ HasOrder(w2, sh.order) THEN OrderOf(w2, sh.order) ELSE o0    \* (its list may just have been shortened)
     IN IF ~Good(w2) THEN w2
        ELSE IF Len(o.shards) = 1 THEN (IF o.shards[1] = sid THEN DelOrder(w2, o.id) ELSE w2)
        ELSE LET i == IndexOf(o.shards, sid)
